@@ -156,13 +156,15 @@ prop("C18", [
     S(CLIENT, "^TestC18Regress$", kind="plain"),
     S(CLIENT, "^TestC18Lengths$", kind="plain"),
     S(CLIENT, "^TestC18$", q=5000, t=100000, shards=4),
+    S(CLIENT, "^TestC18Multicast$", kind="plain", q=200, t=20000),
     S(CLIENT, "^TestC18Concurrent$", kind="plain", race=True, q=200, t=5000),
     # the same stress without the race detector: its instrumentation changes the timing so much that
     # interleavings which give duplicate sequence numbers stop occurring
     S(CLIENT, "^TestC18Concurrent$", kind="plain", q=400, t=20000),
 ], ["needs AF_NETLINK sockets (the check is undecided without them)",
     "only side-effect-free requests: NETLINK_ROUTE message types above RTM_MAX with the REQUEST flag, which the kernel refuses with EOPNOTSUPP and echoes",
-    "a zero-length datagram cannot be sent between netlink sockets (ENODATA); it is covered at parser level only"],
+    "a zero-length datagram cannot be sent between netlink sockets (ENODATA); it is covered at parser level only",
+    "multicast stage: addresses are added to and removed from the loopback device of a private network namespace (unshare on one locked thread); without the privilege the stage is skipped and its class stays empty"],
    nontrivial_classes=["send-echoed", "send-reply-fills-read-buffer-exactly", "foreign-header-sized-refused", "foreign-short-refused", "parser-short", "parser-ok", "concurrent-batch", "concurrent-batch-with-failing-sends", "client-port-id-differs-from-process-id"])
 
 COAL = "props/coalesce"
